@@ -705,7 +705,11 @@ class SuitTag(SuitObject):
         cbor = cls.deserialize_cbor(cbstr)
         if not hasattr(cbor, "tag") or cls._metadata.tag.value != cbor.tag:
             raise SUITError(f"CBOR tag not found in: {cbor}")
-        return cls(cbor2.CBORTag(cbor.tag, cls._metadata.children[0].from_cbor(cls.serialize_cbor(cbor.value))))
+        try:
+            child = cls._metadata.children[0].from_cbor(cls.serialize_cbor(cbor.value))
+        except RecursionError:
+            raise ValueError("CBOR structure is nested too deeply")
+        return cls(cbor2.CBORTag(cbor.tag, child))
 
     def to_cbor(self) -> bytes:
         """Dump SUIT representation to cbor encoded bytes."""
@@ -727,7 +731,10 @@ class SuitTag(SuitObject):
     @log_call
     def to_obj(self) -> dict:
         """Dump SUIT representation to object."""
-        return {self._metadata.tag.name: self.value.value.to_obj()}
+        try:
+            return {self._metadata.tag.name: self.value.value.to_obj()}
+        except RecursionError:
+            raise ValueError("SUIT structure is nested too deeply")
 
 
 class SuitList(SuitObject):
